@@ -368,3 +368,16 @@ def scale_sources(r, which=None, small=False, large=False):
     if which is not None:
         out = [o for o in out if which in o[2]]
     return out
+
+
+def no_variable_sources(r):
+    """root scripts that own no variable at all (frame of zero words): only labels, GOTO and STOP, optionally after program
+    definitions that are never called or that own only their OUT variable.  -> list of (files, main, kind)"""
+    defs = ["", "PROGRAM f IN p DO\nx0 := p\nEND\n", "PROGRAM f DO\nSTOP\nEND\nPROGRAM g IN a, b OUT b DO\nb := a\nEND\n", "PROGRAM h DO\nk : GOTO k\nEND\n"]
+    mains = ["STOP", "a : GOTO b ;\nb : STOP", "GOTO fin ;\nm : STOP ;\nfin : GOTO m", "m : STOP ;\nGOTO m", "a : GOTO a", "GOTO c ;\nb : GOTO d ;\nc : GOTO b ;\nd : STOP ;\nSTOP",
+             "a : GOTO b ;\nb : GOTO c ;\nc : GOTO a"]
+    out = []
+    for d in r.sample(defs, 2):
+        for m in r.sample(mains, 3):
+            out.append(({"main": d + m}, "main", "no-variables"))
+    return out
